@@ -599,6 +599,41 @@ fn gen_op(rng: &mut Rng, s: &Session, pool: &[(Syllable, Vec<KeyCode>)], pending
                 }
                 return op;
             }
+            4 if !selecting && rng.chance(1, 4) => {
+                // a whole scenario: type a known multi-syllable phrase, open its list, shrink the range,
+                // page forward in the shorter list, move the range again (API jump or j / k)
+                let known: Vec<&(Vec<Syllable>, String, u32)> = s.sys.iter().flatten().filter(|e| e.0.len() > 1).collect();
+                if !known.is_empty() {
+                    let e = *rng.pick(&known);
+                    let mut seq: Vec<Op> = vec![];
+                    for syl in &e.0 {
+                        if let Some((_, keys)) = pool.iter().find(|p| p.0 == *syl) {
+                            seq.extend(keys.iter().map(|k| Op::Key(*k, plain)));
+                        }
+                    }
+                    if !s.ed.editor_options().phrase_choice_rearward {
+                        // forward choice looks right of the cursor: go back to the phrase's first syllable
+                        for _ in 0..e.0.len() {
+                            seq.push(Op::Key(Left, plain));
+                        }
+                    }
+                    seq.push(if rng.chance(1, 2) { Op::StartSel } else { Op::Key(Down, plain) });
+                    seq.push(if rng.chance(1, 2) { Op::Jump(2) } else { Op::Key(Down, plain) });
+                    for _ in 0..1 + rng.below(2) {
+                        seq.push(Op::Key(*rng.pick(&[Right, PageDown, Left]), plain));
+                    }
+                    seq.push(match rng.below(6) {
+                        0 | 1 | 2 => Op::Jump(3),
+                        3 => Op::Jump(rng.below(2) as u8),
+                        4 => Op::Key(J, plain),
+                        _ => Op::Key(K, plain),
+                    });
+                    seq.reverse();
+                    let first = seq.pop().unwrap();
+                    pending.extend(seq);
+                    return first;
+                }
+            }
             4 => {
                 return match rng.below(8) {
                     0 => Op::StartSel,
@@ -611,6 +646,24 @@ fn gen_op(rng: &mut Rng, s: &Session, pool: &[(Syllable, Vec<KeyCode>)], pending
             6 if selecting => {
                 let n = *rng.pick(&[0usize, 0, 1, 1, 2, 3, 4, 6, 9, 11, 30, usize::MAX]);
                 return if rng.chance(1, 2) || n > 9 { Op::Select(n) } else { Op::Key(ALL_CODES[1 + n], plain) };
+            }
+            14 if selecting && rng.chance(1, 3) => {
+                // shrink the range, page forward in the shorter list, then move the range again (the page
+                // must restart): jump next / Down x pages, Right / PageDown, then jump prev / first / last / j / k
+                let mut seq: Vec<Op> = vec![if rng.chance(1, 2) { Op::Jump(2) } else { Op::Key(Down, plain) }];
+                for _ in 0..1 + rng.below(2) {
+                    seq.push(Op::Key(*rng.pick(&[Right, PageDown, Left]), plain));
+                }
+                seq.push(match rng.below(6) {
+                    0 | 1 | 2 => Op::Jump(3),
+                    3 => Op::Jump(rng.below(2) as u8),
+                    4 => Op::Key(J, plain),
+                    _ => Op::Key(K, plain),
+                });
+                seq.reverse();
+                let first = seq.pop().unwrap();
+                pending.extend(seq);
+                return first;
             }
             12 if selecting => {
                 if let Some(Some(e)) = cand.map(|c| c.expect.as_ref()) {
